@@ -258,6 +258,9 @@ def concrete_run(mod, sig, values, budget=60, noop_stubs=()):
         o = []
         for k in range(cnt):
             c = fs.regions[p.reg].cells.get(nb * k)
+            if c is not None and c[1] == nb and isinstance(c[0], float) and nb in (4, 8):
+                import struct
+                o.append(struct.unpack('<Q' if nb == 8 else '<I', struct.pack('<d' if nb == 8 else '<f', c[0]))[0]); continue
             o.append(c[0] if c is not None and c[1] == nb and isinstance(c[0], int) else (0xA5A5A5A5A5A5A5A5 & ((1 << (8 * nb)) - 1)))
         outs[nm] = o
     if ex.leaks(fs):
